@@ -84,3 +84,15 @@ CHECKS["C11"] = {
     "note": ("Not decided (value semantics): losslessness of int()/float() on exotic numerals (underscores, Unicode digits), that the new value satisfies the constraint, "
              "idempotence of repair on repaired documents."),
 }
+
+CHECKS["C09"] = {
+    "technique": "static analysis: AST-write effect analysis over the call graph (incl. container aliases through parameters), control-dependence gating of repair, attribute-read lint for spelling-carrying fields, def-use of the emitted document in octave_validate",
+    "text": ("Decides: no function reachable from Validator.validate, validate_frontmatter, _count_literal_zones, emit, project, verify_seal (nor any function of the validator, "
+             "constraints, emitter, projector, routing, holographic modules) stores into or calls a mutator on a document AST object, directly or through a parameter/local "
+             "that aliases a node container; repair(fix=True) is control-dependent on the caller's fix/lenient flag; the validation layer reads no attribute that records "
+             "spelling (.tokens, .raw, .normalized_from, .column, .raw_pattern, .fence_marker); octave_validate binds `doc` only from parse_with_warnings and gated repair, "
+             "writes no AST field itself and sets canonical from emit(doc) without options; _to_python_value is element-wise identity. Together: with fix off validation "
+             "cannot alter what is emitted, and the verdict is a function of the AST alone."),
+    "note": ("Not decided: that two respellings produce the same AST (C02/C04 behaviour), hence equal verdicts for respellings; value equality canonical == emit(parse(x)). "
+             "Receivers are typed only locally; an AST object reached through an untyped container of another class would not be recognised."),
+}
